@@ -10,6 +10,9 @@
    request whose acceleration signs match the direction of travel), and for the double-S generator all four cruise
    variants and the three exits of the bisection loop, for ANY number of loop passes (induction on the model's fuel);
    the acceleration limit of the two single-phase exits needs the standard double-S feasibility condition.
+   The models are those of /repo WITH proposed_fixes/C14-1.diff (both generators return 0 when a limit is zero; without
+   it a_trajtrap_gen(vm = 0) returns +inf and a_trajbell_gen(vm = 0) returns a positive duration with a peak velocity
+   above the zero limit): with that guard the planning theorems need no hypothesis on the limits at all.
    Definitions used in the statements: WFtrap, trap_feasible, clampR, trap_gen_post, trap_motion (C14/TrapProofs.v,
    TrapGenProofs.v, MotionProofs.v); WFbell, WFlim, mirror, bnorm, bnd (BellProofs.v); bell_feasible, feasible_std,
    bell_gen_post, inv, exit_post, shape (BellGenProofs.v); bell_motion (MotionProofs.v).
@@ -26,7 +29,7 @@ Local Open Scope R_scope.
    deceleration), either direction of travel: a positive result on a feasible request gives a well-formed context that
    records the request, with every divisor non-zero and every sqrt argument non-negative on the executed path *)
 Theorem C14_trap_gen_wellformed : forall c0 vm ac de p0 p1 v0 v1,
-  vm <> 0 -> trap_feasible ac de p0 p1 ->
+  trap_feasible ac de p0 p1 ->
   trap_gen_post vm ac de p0 p1 v0 v1 (trap_gen_b R_ops c0 vm ac de p0 p1 v0 v1).
 Proof. exact trap_gen_wf. Qed.
 Print Assumptions C14_trap_gen_wellformed.
@@ -79,7 +82,7 @@ Print Assumptions C14_trap_durations.
 
 (* --- both layers together: the property for the trapezoid, stated on the generator's output *)
 Theorem C14_trap_property : forall c0 vm ac de p0 p1 v0 v1,
-  vm <> 0 -> trap_feasible ac de p0 p1 ->
+  trap_feasible ac de p0 p1 ->
   let '(c, t, b) := trap_gen_b R_ops c0 vm ac de p0 p1 v0 v1 in
   0 < t -> trap_motion vm p0 p1 v0 c t /\ (b = TB_cruise \/ b = TB_accdec -> t_v1 c = clampR v1 vm).
 Proof. exact trap_gen_motion. Qed.
@@ -91,7 +94,6 @@ Print Assumptions C14_trap_property.
    unconditionally for the four cruise variants and the loop's two-phase exit, and under the standard feasibility
    condition for the two single-phase exits (BX_noacc, BX_nodec) *)
 Theorem C14_bell_gen_wellformed : forall fuel c0 jm am vm p0 p1 v0 v1,
-  jm <> 0 -> am <> 0 -> vm <> 0 ->
   bell_gen_post jm am vm p0 p1 v0 v1 (bell_gen_b R_ops fuel c0 jm am vm p0 p1 v0 v1).
 Proof. exact bell_gen_wf. Qed.
 Print Assumptions C14_bell_gen_wellformed.
@@ -185,7 +187,7 @@ Print Assumptions C14_bell_mirror.
 
 (* --- both layers together: the property for the double-S profile, stated on the generator's output *)
 Theorem C14_bell_property : forall fuel c0 jm am vm p0 p1 v0 v1,
-  jm <> 0 -> am <> 0 -> vm <> 0 -> bell_feasible jm am vm p0 p1 v0 v1 ->
+  bell_feasible jm am vm p0 p1 v0 v1 ->
   let '(c, t, k, n) := bell_gen_b R_ops fuel c0 jm am vm p0 p1 v0 v1 in
   0 < t -> bell_motion jm am vm p0 p1 v0 v1 c t.
 Proof. exact bell_gen_motion. Qed.
